@@ -141,7 +141,7 @@ PY_TYPES = {"float": float, "int": int, "bool": bool, "complex": complex, "str":
 
 
 def is_number(v):
-    return isinstance(v, (bool, int, float, complex))
+    return isinstance(v, (bool, int, float, complex)) or type(v).__name__ in ("SymNum", "SymC")
 
 
 class Interp:
@@ -379,7 +379,7 @@ class Interp:
             if name in v.attrs:
                 return v.attrs[name]
             raise Unknown(f"{v.name}.{name}")
-        if isinstance(v, complex) or isinstance(v, (int, float)):
+        if isinstance(v, complex) or isinstance(v, (int, float)) or type(v).__name__ in ("SymNum", "SymC"):
             if name == "real":
                 return v.real
             if name == "imag":
@@ -1173,7 +1173,7 @@ class Interp:
             if v.size == 0:
                 return False
             raise Raised(ValueError, "The truth value of an array with more than one element is ambiguous")
-        if v is None or isinstance(v, (bool, int, float, complex, str, list, tuple, dict, set)):
+        if v is None or isinstance(v, (bool, int, float, complex, str, list, tuple, dict, set)) or type(v).__name__ in ("SymNum", "SymC"):
             return bool(v)
         return True
 
